@@ -990,7 +990,11 @@ func resolveActiveValidators(ctx context.Context, eth2Cl eth2wrap.Client, submit
 		// Check for active validators for the given epoch.
 		// The activation epoch needs to be checked in cases where this function is called before the epoch starts.
 		if !val.Status.IsActive() && val.Validator.ActivationEpoch != eth2p0.Epoch(epoch) {
-			continue
+			// The reported status can be older than one epoch (beacon node behind, validators answered for an earlier state):
+			// a validator that is not yet reported active is still active in every later epoch before its exit epoch.
+			if !(val.Validator.ActivationEpoch < eth2p0.Epoch(epoch) && eth2p0.Epoch(epoch) < val.Validator.ExitEpoch) {
+				continue
+			}
 		}
 
 		resp = append(resp, validator{
